@@ -1,8 +1,84 @@
 """Checks that need more than one vprops run (C01 trace monitors, C11 two profiles + Miri, ...)."""
+import json
 import os
+import subprocess
 import time
 
-SPECIAL = {}
+SWEEP = ["C02", "C03", "C04", "C05", "C06", "C07", "C08", "C09", "C10", "C12", "C13", "C14", "C15", "C16", "C17", "C18",
+         "C19", "C20"]
+
+
+def _panic_only(r, sub):
+    """Keep only panic-class verdicts of another property's workload and re-label its counters."""
+    if "_failed" in r:
+        return r
+    keep = [v for v in r.get("violations", []) if "panic" in v["key"]]
+    out = {
+        "evaluations": r.get("evaluations", 0),
+        "distinct_nontrivial": r.get("distinct_nontrivial", 0),
+        "ops": {"%s/%s" % (sub, k): v for k, v in r.get("ops", {}).items()},
+        "classes": {"sweep_cases_%s" % sub: r.get("evaluations", 0)},
+        "violations": keep,
+        "inconclusive": r.get("inconclusive", []),
+        "mandatory_missing": [],
+        "samples": r.get("samples", [])[:1],
+        "notes": {"debug_assertions": r.get("debug_assertions"),
+                  "non_panic_verdicts_ignored_here": len(r.get("violation_keys", {})) - len({v["key"] for v in keep})},
+    }
+    return out
+
+
+def c11(drv, prop, tier, seed):
+    t0 = time.time()
+    results = []
+    sub_tier = "lite" if tier == "quick" else "quick"
+    for profile in ("vrel", "vdbg"):
+        drv.cargo_build(profile)
+        r = drv.run_vprops("C11", profile, tier, seed, timeout=7200)
+        if "_failed" not in r and r.get("debug_assertions") != (profile == "vdbg"):
+            r = {"_failed": "profile %s was built with debug_assertions=%s" % (profile, r.get("debug_assertions"))}
+        results.append(("%s/own" % profile, r))
+        for sub in SWEEP:
+            r = drv.run_vprops("C11", profile, sub_tier, seed, sub=sub, timeout=7200)
+            results.append(("%s/%s" % (profile, sub), _panic_only(r, sub)))
+    extra = {}
+    if tier == "thorough":
+        m = miri(drv, seed)
+        results.append(("miri/own", m))
+    return drv.finish(prop, tier, seed, t0, results, extra_cov=extra, assumptions=[
+        "a panic, failed assertion, arithmetic-overflow trap or out-of-bounds index surfaces as an unwinding panic that catch_unwind observes (both profiles are built with panic=unwind)",
+        "non-termination is bounded only by a wall-clock watchdog whose firing is reported as inconclusive, not as a violation",
+        "held on the executions observed only; the hostile-argument workload samples values, the sweep re-runs the other properties' workloads at reduced budget",
+    ])
+
+
+def miri(drv, seed):
+    """Small single-threaded pass of the hostile-argument workload under Miri (undefined behaviour in the
+    few unsafe casts, plus debug assertions and overflow checks at opt-level 0)."""
+    out = os.path.join(drv.OUTDIR, "C11-miri.json")
+    os.makedirs(drv.OUTDIR, exist_ok=True)
+    if os.path.exists(out):
+        os.remove(out)
+    env = dict(drv.ENV)
+    env["MIRIFLAGS"] = "-Zmiri-disable-isolation"
+    env["CARGO_TARGET_DIR"] = os.path.join(drv.TARGET, "miri")
+    cmd = ["cargo", "+nightly", "miri", "run", "--offline", "-p", "props", "--", "run", "C11", "--tier", "miri", "--seed",
+           str(seed), "--threads", "1", "--out", out]
+    try:
+        p = subprocess.run(cmd, cwd=drv.HARNESS, env=env, stdout=subprocess.PIPE, stderr=subprocess.STDOUT, text=True,
+                           timeout=5400)
+    except subprocess.TimeoutExpired:
+        return {"_failed": "miri watchdog fired — inconclusive"}
+    if p.returncode != 0 or not os.path.exists(out):
+        tail = p.stdout[-3000:]
+        if "Undefined Behavior" in tail:
+            # a Miri UB report aborts the interpreter: surface it as a violation with the report as detail
+            return {"evaluations": 1, "violations": [{"key": "miri|undefined_behavior", "detail": tail, "case": {}, "count": 1}]}
+        return {"_failed": "miri run exited %s: %s" % (p.returncode, tail[-1500:])}
+    return json.load(open(out))
+
+
+SPECIAL = {"C11": c11}
 
 
 def setup(drv):
